@@ -743,6 +743,12 @@ func multiLineCase(k *run.K) {
 				l = l.Reverse()
 			}
 			ls2 = append(ls2, l)
+			if k.Rng.Chance(1, 4) { // empty members are transparent
+				ls2 = append(ls2, geom.LineString{})
+			}
+		}
+		if k.Rng.Chance(1, 4) {
+			ls2 = append([]geom.LineString{{}}, ls2...)
 		}
 		m2 := geom.NewMultiLineString(ls2)
 		var s2 bool
@@ -751,6 +757,52 @@ func multiLineCase(k *run.K) {
 		}
 	}
 	decoderGate(k, g, v.OK, "")
+}
+
+// multiPointCase: MultiPoints with repeated and empty members; simple iff no two non-empty members coincide.
+func multiPointCase(k *run.K) {
+	side := k.Rng.Range(1, 3)
+	n := k.Rng.Range(0, 6)
+	var pts []geom.Point
+	seen := map[ip]bool{}
+	want := true
+	for i := 0; i < n; i++ {
+		if k.Rng.Chance(1, 4) {
+			pts = append(pts, geom.NewEmptyPoint(geom.DimXY))
+			continue
+		}
+		q := rp(k.Rng, side)
+		if k.Rng.Chance(1, 6) {
+			q = ip{0, 0} // the XY an empty Point's zero payload carries
+		}
+		if seen[q] {
+			want = false
+		}
+		seen[q] = true
+		pts = append(pts, geom.NewPointXY(float64(q.x), float64(q.y)))
+	}
+	mp := geom.NewMultiPoint(pts)
+	g := mp.AsGeometry()
+	k.In("candidate", g.AsText())
+	k.Nontrivial(g.AsText())
+	var verr error
+	var simple, gs, def bool
+	if k.Lib("nopanic", func() { verr = g.Validate(); simple = mp.IsSimple(); gs, def = g.IsSimple() }) {
+		return
+	}
+	k.Check("oracle-vs-validate", verr == nil, "MultiPoint Validate()=%v for finite points: %s", verr, g.AsText())
+	k.Check("simple", simple == want && def && gs == want, "MultiPoint.IsSimple()=%v Geometry.IsSimple()=%v,%v, definitional=%v for %s", simple, gs, def, want, g.AsText())
+	perm := k.Rng.Perm(len(pts))
+	var p2 []geom.Point
+	for _, j := range perm {
+		p2 = append(p2, pts[j])
+	}
+	m2 := geom.NewMultiPoint(p2)
+	var s2 bool
+	if !k.Lib("nopanic", func() { s2 = m2.IsSimple() }) {
+		k.Check("repr-invariance", s2 == simple, "MultiPoint.IsSimple depends on member order: %v for %s, %v for %s", simple, g.AsText(), s2, m2.AsText())
+	}
+	decoderGate(k, g, true, "")
 }
 
 // nonfinite: NaN / +-Inf planted at every ordinate position.
@@ -938,6 +990,9 @@ func runAll(c *run.Ctx) {
 	}
 	for i := 0; i < c.N(15000, 150000); i++ {
 		c.Case("mline", i, multiLineCase)
+	}
+	for i := 0; i < c.N(4000, 40000); i++ {
+		c.Case("mpoint", i, multiPointCase)
 	}
 	for i := 0; i < c.N(1500, 20000); i++ {
 		c.Case("nonfinite", i, nonfiniteCase)
